@@ -16,6 +16,7 @@ type optShape struct {
 	temporal bool
 	filter   string                  // FILTER clause on a binding of the mandatory clause
 	keep     func(d *dspec) bool     // the mandatory matches the FILTER keeps
+	dead     []xclause               // optional clauses written before opts that no triple of the universe matches (predicate "c")
 }
 
 var c10Shapes = []optShape{
@@ -36,6 +37,11 @@ var c10Shapes = []optShape{
 	{mand: xq(qclause{s: bS, p: cA, o: bO}), opts: []xclause{{qclause: qclause{s: bS, p: pos{cb: 'b'}, o: bZ}, oType: "y", oID: "i", lo: -1, hi: -1}}, okinds: []int{0, 1}},
 	// 10: the optional clause shares ?t only through the anchor of a predicate in object position
 	{mand: xclause{qclause: qclause{s: bS, p: cA, o: bO, at: "t"}, lo: -1, hi: -1}, opts: []xclause{{qclause: qclause{s: bZ, p: pos{bind: "q"}, o: cA}, oAtBind: "t", lo: -1, hi: -1}}, temporal: true, okinds: []int{0, 4}},
+	// 11, 12: an optional clause that shares nothing and matches nothing stands before the
+	// optional clause under test: its bindings are NULL in every row and the join
+	// that follows is still made on the bindings of the mandatory clause
+	{mand: clSAO, dead: xqs(qclause{s: pos{bind: "x"}, p: pos{cb: 'c'}, o: pos{bind: "y"}}), opts: xqs(qclause{s: bO, p: pos{cb: 'b'}, o: bZ}), okinds: []int{0}},
+	{mand: clSAO, dead: xqs(qclause{s: pos{bind: "x"}, p: pos{cb: 'c'}, o: pos{bind: "y"}}), opts: xqs(qclause{s: bS, p: pos{cb: 'b'}, o: bZ})},
 }
 
 func xqs(cs ...qclause) []xclause {
@@ -47,7 +53,7 @@ func xqs(cs ...qclause) []xclause {
 }
 
 func optText(sh optShape) string {
-	all := append([]xclause{sh.mand}, sh.opts...)
+	all := append(append([]xclause{sh.mand}, sh.dead...), sh.opts...)
 	bs := xbindingsOf(all)
 	q := "select "
 	for i, b := range bs {
@@ -57,7 +63,7 @@ func optText(sh optShape) string {
 		q += "?" + b
 	}
 	q += " from ?g where { " + sh.mand.text()
-	for _, o := range sh.opts {
+	for _, o := range append(append([]xclause{}, sh.dead...), sh.opts...) {
 		q += " . optional { " + o.text() + " }"
 	}
 	if sh.filter != "" {
